@@ -327,3 +327,48 @@ func verifH_C18_tags() {
 	verifAssert(verr == nil, "C18 tags: the generated schema accepts the JSON encoding of the value")
 	verifReach("end")
 }
+
+// ---- recursion that does not go through a struct ----
+
+type verifRecSlice []verifRecSlice
+
+type verifRecMap map[string]verifRecMap
+
+type verifDir struct {
+	Name string              `json:"name"`
+	Sub  map[string]verifDir `json:"sub"`
+	List []verifDir          `json:"list"`
+}
+
+//verif:harness id=C18 tier=quick,thorough witness=end depth=2000 bounds="recursive types: a struct recursive through map values and slice elements (map[string]T, []T inside T), a slice type that is its own element type and a map type that is its own value type: generation terminates, every $ref names a component, and small values' encodings validate"
+func verifH_C18_recursive_types() {
+	comps := openapi3.Schemas{}
+	var ref *openapi3.SchemaRef
+	var err error
+	var enc any
+	shape := verifChoose("type", 3)
+	switch shape {
+	case 0:
+		ref, err = NewSchemaRefForValue(&verifDir{}, comps)
+		enc = map[string]any{"name": "n", "sub": map[string]any{"k": map[string]any{"name": "m", "sub": map[string]any{}, "list": []any{}}}, "list": []any{map[string]any{"name": "l", "sub": map[string]any{}, "list": []any{}}}}
+	case 1:
+		ref, err = NewSchemaRefForValue(verifRecSlice{}, comps)
+		enc = []any{[]any{}, []any{[]any{}}}
+	case 2:
+		ref, err = NewSchemaRefForValue(verifRecMap{}, comps)
+		enc = map[string]any{"k": map[string]any{}}
+	}
+	verifAssert(err == nil && ref != nil, "C18 recursive types: generation terminates with a schema")
+	if err != nil || ref == nil {
+		return
+	}
+	root := &openapi3.SchemaRef{Ref: ref.Ref, Value: ref.Value}
+	verifAssert(verifResolveGen(root, comps, 0), "C18 recursive types: every $ref in the generated schema names a component")
+	for _, c := range comps {
+		verifAssert(verifResolveGen(c, comps, 0), "C18 recursive types: every $ref in a generated component names a component")
+	}
+	if root.Value != nil {
+		verifAssert(root.Value.VisitJSON(enc) == nil, "C18 recursive types: the generated schema accepts the encoding of a small value")
+	}
+	verifReach("end")
+}
